@@ -239,8 +239,18 @@ def o6(tier):
     return r
 
 
+def o7(tier):
+    """accepting an invitation activates the group whatever happened to the stored record in between (e.g. it turned Inactive because the removal commit arrived after the re-invitation)"""
+    from props import C12
+    from mirsym.api import guard as _g
+    r = _g(C12.o3)(tier)
+    r.oid = 'O7'
+    r.title = 'accept_welcome (shared with C12-O3): every successful return has saved the group as Active (+ SelfUpdateState::Required, O2), whatever state the stored record or welcome was in'
+    return r
+
+
 def run(tier, seed, only=None):
-    obs = [('O1', o1), ('O2', o2), ('O3', o3), ('O4', o4), ('O5', o5), ('O6', o6)]
+    obs = [('O1', o1), ('O2', o2), ('O3', o3), ('O4', o4), ('O5', o5), ('O6', o6), ('O7', o7)]
     out = []
     for k, f in obs:
         if only and k not in only:
